@@ -21,7 +21,7 @@ def models(tier, seed):
 
 
 def required_tags(tier):
-    return ['planted', 'branches>=10', 'parallel', 'ref_only_vsrc', 'linear_src', 'reversed', 'complex', 'k:load_v', 'k:voltage_source', 'k:current_source', 'k:short_circuit', 'k:open_circuit']
+    return ['planted', 'shipped_example', 'branches>=10', 'parallel', 'ref_only_vsrc', 'linear_src', 'reversed', 'complex', 'k:load_v', 'k:voltage_source', 'k:current_source', 'k:short_circuit', 'k:open_circuit']
 
 
 def tags_of(case):
@@ -219,9 +219,138 @@ def plant(rng):
     return br, ref, phi, flow
 
 
+def exact_solve(br, ref):
+    """exact MNA solution over Gaussian rationals (untrusted: TLC judges the result with the declarative circuit equations)"""
+    nodes = sorted({b['n1'] for b in br} | {b['n2'] for b in br})
+    nz = [n for n in nodes if n != ref]
+    vs = [k for k, b in enumerate(br) if b['e']['f'] == 'N' and b['e']['imm'] == [[0, 1], [0, 1]]]
+    N = len(nz) + len(vs)
+    A = [[FC(0) for _ in range(N + 1)] for _ in range(N)]
+    def G(x): return FC(*[__import__('fractions').Fraction(*p) for p in x])
+    for k, b in enumerate(br):
+        e = b['e']
+        imm, src = G(e['imm']), G(e['src'])
+        i1 = nz.index(b['n1']) if b['n1'] != ref else None
+        i2 = nz.index(b['n2']) if b['n2'] != ref else None
+        if k in vs:
+            c = len(nz) + vs.index(k)
+            if i1 is not None:
+                A[i1][c] = A[i1][c] + FC(1); A[c][i1] = A[c][i1] + FC(1)
+            if i2 is not None:
+                A[i2][c] = A[i2][c] - FC(1); A[c][i2] = A[c][i2] - FC(1)
+            A[c][N] = A[c][N] + src
+            continue
+        y = imm.inv() if e['f'] == 'N' else imm
+        isrc = (src / imm) if e['f'] == 'N' else src
+        if y.zero() and isrc.zero():
+            continue
+        for a, bb, sg in ((i1, i2, 1), (i2, i1, -1)):
+            if a is None:
+                continue
+            A[a][a] = A[a][a] + y
+            if bb is not None:
+                A[a][bb] = A[a][bb] - y
+            A[a][N] = A[a][N] - (isrc if sg == 1 else -isrc)
+    for c in range(N):
+        piv = next((r_ for r_ in range(c, N) if not A[r_][c].zero()), None)
+        if piv is None:
+            return None
+        A[c], A[piv] = A[piv], A[c]
+        inv = A[c][c].inv()
+        A[c] = [x * inv for x in A[c]]
+        for r_ in range(N):
+            if r_ != c and not A[r_][c].zero():
+                f = A[r_][c]
+                A[r_] = [x - f * y_ for x, y_ in zip(A[r_], A[c])]
+    x = [A[r_][N] for r_ in range(N)]
+    phi = {n: (FC(0) if n == ref else x[nz.index(n)]) for n in nodes}
+    flow = []
+    for k, b in enumerate(br):
+        e = b['e']
+        u = phi[b['n1']] - phi[b['n2']]
+        if k in vs:
+            flow.append(x[len(nz) + vs.index(k)])
+        elif e['f'] == 'N':
+            flow.append((u + G(e['src'])) / G(e['imm']))
+        else:
+            flow.append(G(e['src']) + G(e['imm']) * u)
+    return phi, flow
+
+
+def shipped_examples():
+    """the example networks shipped with the repository, loaded by the real loader and projected to abstract networks"""
+    import glob, os
+    from fractions import Fraction
+    from ..common import REPO
+    from ..netbuild import project_network
+    from CircuitCalculator.Network.loaders import load_network_from_json
+    out = []
+    for path in sorted(glob.glob(os.path.join(REPO, 'examples', 'test-networks', '01_json-network', '*.json'))):
+        try:
+            net = load_network_from_json(path)
+        except Exception as e:       # noqa
+            out.append((path, None, repr(e)))
+            continue
+        pn = project_network(net)
+        labels = sorted({b['n1'] for b in pn['br']} | {b['n2'] for b in pn['br']})
+        idx = {l: k for k, l in enumerate(labels)}
+        def fg(z):
+            z = complex(z)
+            re, im = Fraction(z.real).limit_denominator(10 ** 6), Fraction(z.imag).limit_denominator(10 ** 6)
+            return [[re.numerator, re.denominator], [im.numerator, im.denominator]]
+        br = [{'id': k + 1, 'n1': idx[b['n1']], 'n2': idx[b['n2']], 'e': {'f': b['f'], 'imm': fg(b['imm']), 'src': fg(b['src'])}} for k, b in enumerate(pn['br'])]
+        out.append((path, (net, br, idx[pn['ref']], labels, [b['id'] for b in pn['br']]), None))
+    return out
+
+
 def extra(tier, seed, ctx, pool):
     import random, json
     from ..trace import judge
+    # ---- the repository's shipped example networks: loaded by the real loader, exact solution judged by TLC, compared with the solver
+    ex_events, ex_meta = [], []
+    for path, item, err in shipped_examples():
+        if item is None:
+            r = CaseResult(case_id=path)
+            r.mismatches.append({'what': f'load_network_from_json({path})', 'got': err, 'want': 'network', 'signature': 'example:load', 'detail': ''})
+            yield (json.dumps({'example': path}), r)
+            continue
+        net, br, ref, labels, ids = item
+        sol = exact_solve(br, ref)
+        if sol is None:
+            continue
+        phi, flow = sol
+        ex_events.append({'tid': len(ex_events) + 1, 'br': br, 'ref': ref, 'phi': [phi[n].j() for n in range(len(labels))], 'flow': [f.j() for f in flow]})
+        ex_meta.append((path, net, br, ref, labels, ids, phi, flow))
+    if ex_events:
+        verdicts, _ = judge('Trace_C01.tla', ex_events, shards=4, implicit_ok=True)
+        for k, (path, net, br, ref, labels, ids, phi, flow) in enumerate(ex_meta):
+            v = verdicts[k + 1]['v']
+            r = CaseResult(case_id=path)
+            r.tags = ['shipped_example']
+            if v == 'plant_not_well_posed':
+                r.skipped = 'example_outside_topological_test'
+                yield (json.dumps({'example': path}), r)
+                continue
+            if v != 'ok':
+                from ..common import MachineryError
+                raise MachineryError(f'exact solution of {path} rejected by the specification: {v}')
+            s_, e = call(nodal_analysis_bias_point_solver, net)
+            if e is not None:
+                r.mismatches.append({'what': f'solver on {path}', 'got': repr(e), 'want': 'solution', 'signature': 'example:solve', 'detail': ''})
+            else:
+                sv = max([abs(p_.c()) for p_ in phi.values()] + [1e-9])
+                si = max([abs(f.c()) for f in flow] + [1e-9])
+                for n, lab in enumerate(labels):
+                    r.observations += 1
+                    if not close(s_.get_potential(lab), phi[n].c(), sv):
+                        r.mismatches.append({'what': f'{path}: get_potential({lab!r})', 'got': repr(s_.get_potential(lab)), 'want': repr(phi[n].c()), 'signature': 'example:potential', 'detail': ''})
+                for b, f, bid in zip(br, flow, ids):
+                    lin = b['e']['src'] != [[0, 1], [0, 1]] and b['e']['imm'] != [[0, 1], [0, 1]]
+                    want = -f.c() if lin else f.c()
+                    r.observations += 1
+                    if not close(s_.get_current(bid), want, si):
+                        r.mismatches.append({'what': f'{path}: get_current({bid!r})', 'got': repr(s_.get_current(bid)), 'want': repr(want), 'signature': 'example:current', 'detail': ''})
+            yield (json.dumps({'example': path}), r)
     rng = random.Random(seed * 101 + 1)
     n_nets = 160 if tier == 'quick' else 4000
     plants, events = [], []
